@@ -185,6 +185,12 @@ def run(prop, tier, replay=None):
         network_cov = {"cfg": "MC_Network.cfg", "states": nr["distinct"], "transitions": nr["generated"],
                        "checked": ["NoForgedQuorum", "OnlyTheChainBodyIsPublished", "PublishedMeansQuorum", "QuorumsIntersectInHonest", "EventualVAA (fair)"]}
         print("TLC Network (composition of nodes, TLC only): %d distinct states, %d transitions" % (nr["distinct"], nr["generated"]))
+    if prop == "C03" and tier == "thorough" and not replay:
+        # design-level composition: gossip verifier -> re-observation router -> watcher queue
+        gr = vlib.tlc_must_pass(work, "MC_Guardian", "MC_Guardian.cfg", workers=vlib.NCPU, timeout=1800)
+        network_cov = {"cfg": "MC_Guardian.cfg", "states": gr["distinct"], "transitions": gr["generated"],
+                       "checked": ["OnlyVerifiedRequestsReachWatchers", "OnlyNamedChain", "AtMostOncePerWindow"]}
+        print("TLC Guardian (gossip -> router -> watcher composition, TLC only): %d distinct states" % gr["distinct"])
     gossip_cov = {}
     if prop == "C03" and not replay:
         gossip_cov = run_gossip(work, tier, seed, verdict)
